@@ -3,153 +3,23 @@
    Definitions only. *)
 From Coq Require Import List Bool Arith.
 Import ListNotations.
-From Mos Require Import Str Xml Seq Outcome Elements Classify Messages.
+From Mos Require Import Str Xml Outcome Seq Elements Classify Messages.
 
-(* ---- find_child guarded by "a blank ID never matches" *)
-Inductive fc := FFound (i : nat) | FNone | FAttr.
-
-Fixpoint find_child_from (tag idtag id : str) (l : list xml) (i : nat) : fc :=
-  match l with
-  | [] => FNone
-  | c :: r =>
-    if has_tag tag c then
-      match find idtag (kids_of c) with
-      | None => FAttr                      (* child.find('<tag>ID').text on None *)
-      | Some e => if ostr_eqb (text_of e) (Some id) then FFound i
-                  else find_child_from tag idtag id r (S i)
-      end
-    else find_child_from tag idtag id r (S i)
-  end.
-Definition find_by_id (tag idtag : str) (id : option str) (l : list xml) : fc :=
-  match id with
-  | None => FNone
-  | Some s => find_child_from tag idtag s l 0
-  end.
-Definition find_story := find_by_id t_story t_storyID.
-Definition find_item := find_by_id t_item t_itemID.
-
-(* ---- raising and warning evaluate self.message_id inside the f-string *)
-Definition merge_error (m : xml) : exn :=
-  match msg_id_exn m with Some e => e | None => MosMergeError end.
-Definition raise_merge {S} (m : xml) (s : S) : res S := fail s (merge_error m).
-Definition emit {S} (m : xml) (w : warn) (s : S) : res S :=
-  match msg_id_exn m with Some e => fail s e | None => R s [w] None end.
-
-(* ---- generic edits on a child list *)
-
-(* for each ID: remove the first match, or warn *)
-Fixpoint delete_loop (tag idtag : str) (w : warn) (m : xml) (ids : list (option str))
-         (kids : list xml) : res (list xml) :=
-  match ids with
-  | [] => ok kids
-  | id :: r =>
-    match find_by_id tag idtag id kids with
-    | FAttr => fail kids PyAttributeError
-    | FFound i => delete_loop tag idtag w m r (remove_at i kids)
-    | FNone => bind (emit m w kids) (delete_loop tag idtag w m r)
+(* ---- the keyed-sequence view of roCreate's children (stories) and of a story's
+   children (items): find_child looks at the tag and at the text of the <tag>ID child *)
+Definition ckey (tag idtag : str) (x : xml) : kres str :=
+  if has_tag tag x then
+    match find idtag (kids_of x) with
+    | None => KBad                      (* child.find('<tag>ID').text on None *)
+    | Some e => KKey (text_of e)
     end
-  end.
+  else KOther.
+Definition skey : xml -> kres str := ckey t_story t_storyID.
+Definition ikey : xml -> kres str := ckey t_item t_itemID.
 
-(* insert stories from index i, skipping (with a warning) those whose ID is already known;
-   the index advances only on insertion *)
-Fixpoint insert_dups (m : xml) (seen : list (option str)) (i : nat) (new : list xml)
-         (kids : list xml) : res (list xml) :=
-  match new with
-  | [] => ok kids
-  | s :: r =>
-    let id := story_id s in
-    if mem_ostr id seen then bind (emit m DuplicateStory kids) (insert_dups m seen i r)
-    else insert_dups m (id :: seen) (S i) r (insert_at i s kids)
-  end.
-
-(* locate every source, rejecting unknown ones, the target itself and repeats *)
-Inductive vres := VOk (ps : list nat) | VMerge | VAttr.
-Fixpoint validate_sources (tag idtag : str) (tp : option nat) (acc : list nat)
-         (ids : list (option str)) (kids : list xml) : vres :=
-  match ids with
-  | [] => VOk (rev acc)
-  | id :: r =>
-    match find_by_id tag idtag id kids with
-    | FAttr => VAttr
-    | FNone => VMerge
-    | FFound p =>
-      if (match tp with Some t => Nat.eqb p t | None => false end) || memn p acc then VMerge
-      else validate_sources tag idtag tp (p :: acc) r kids
-    end
-  end.
-
-(* target lookup for moves: None = end *)
-Inductive tres := TEnd | TAt (i : nat) | TMerge | TAttr.
-Definition locate_target (tag idtag : str) (tgt : option str) (kids : list xml) : tres :=
-  match tgt with
-  | None => TEnd
-  | Some _ =>
-    match find_by_id tag idtag tgt kids with
-    | FFound i => TAt i
-    | FNone => TMerge
-    | FAttr => TAttr
-    end
-  end.
-
-Definition gen_move (tag idtag : str) (m : xml) (tgt : option str) (srcs : list (option str))
-           (kids : list xml) : res (list xml) :=
-  match locate_target tag idtag tgt kids with
-  | TAttr => fail kids PyAttributeError
-  | TMerge => raise_merge m kids
-  | t =>
-    let tp := match t with TAt i => Some i | _ => None end in
-    match validate_sources tag idtag tp [] srcs kids with
-    | VAttr => fail kids PyAttributeError
-    | VMerge => raise_merge m kids
-    | VOk ps =>
-      match move_before ps tp kids with
-      | Some kids' => ok kids'
-      | None => fail kids PyValueError
-      end
-    end
-  end.
-
-Definition gen_swap (tag idtag : str) (m : xml) (ids : list (option str)) (kids : list xml)
-  : res (list xml) :=
-  match ids with
-  | [a; b] =>
-    match find_by_id tag idtag a kids with
-    | FAttr => fail kids PyAttributeError
-    | FNone => raise_merge m kids
-    | FFound i =>
-      match find_by_id tag idtag b kids with
-      | FAttr => fail kids PyAttributeError
-      | FNone => raise_merge m kids
-      | FFound j => if Nat.eqb i j then raise_merge m kids else ok (swap_nodes i j kids)
-      end
-    end
-  | _ => raise_merge m kids
-  end.
-
-(* remove the child at index i and insert the replacements from that index *)
-Definition replace_with (i : nat) (new : list xml) (kids : list xml) : list xml :=
-  insert_loop i new (remove_at i kids).
-
-(* insert before the target item, or at the end of the story when the reference is blank *)
-Definition gen_item_insert (m : xml) (tgt : option str) (new : list xml) (kids : list xml)
-  : res (list xml) :=
-  match tgt with
-  | None => ok (insert_loop (length kids) new kids)
-  | Some _ =>
-    match find_item tgt kids with
-    | FAttr => fail kids PyAttributeError
-    | FNone => raise_merge m kids
-    | FFound i => ok (insert_loop i new kids)
-    end
-  end.
-
-Definition gen_item_replace (m : xml) (tgt : option str) (new : list xml) (kids : list xml)
-  : res (list xml) :=
-  match find_item tgt kids with
-  | FAttr => fail kids PyAttributeError
-  | FNone => raise_merge m kids
-  | FFound i => ok (replace_with i new kids)
-  end.
+(* _find_by_id(parent, 'story' | 'item', id) *)
+Definition find_story (id : option str) (l : list xml) : fc := lookup skey str_eqb id l.
+Definition find_item (id : option str) (l : list xml) : fc := lookup ikey str_eqb id l.
 
 (* run an item-level edit inside the story with the given ID *)
 Definition with_story (sid : option str) (kids : list xml) (missing : res (list xml))
@@ -197,6 +67,16 @@ Definition known_story_ids (kids : list xml) : list (option str) :=
 
 Definition merge_kids (k : mclass) (m b : xml) (rc : xml) : res (list xml) :=
   let kids := kids_of rc in
+  let mex := msg_id_exn m in
+  (* story-level generic edits *)
+  let s_delete := delete_loop skey str_eqb mex StoryNotFound in
+  let s_dups := insert_dups mex story_id ostr_eqb DuplicateStory (known_story_ids kids) in
+  (* item-level generic edits *)
+  let i_delete := delete_loop ikey str_eqb mex ItemNotFound in
+  let i_insert := gen_insert ikey str_eqb mex in
+  let i_replace := gen_replace ikey str_eqb mex in
+  let i_move := gen_move ikey str_eqb mex in
+  let missing := raise_merge mex kids in
   match k with
   | StorySend =>
     match convert_story_send b with
@@ -204,98 +84,87 @@ Definition merge_kids (k : mclass) (m b : xml) (rc : xml) : res (list xml) :=
     | Some story =>
       match find_story (story_id story) kids with
       | FAttr => fail kids PyAttributeError
-      | FNone => emit m StoryNotFound kids
-      | FFound i => ok (insert_at i story (remove_at i kids))
+      | FNone => emit mex StoryNotFound kids
+      | FFound i => ok (replace_with i [story] kids)
       end
     end
   | StoryAppend => ok (kids ++ carried t_story b)
-  | StoryDelete => delete_loop t_story t_storyID StoryNotFound m (id_tags t_storyID b) kids
+  | StoryDelete => s_delete (id_tags t_storyID b) kids
   | StoryInsert =>
     match find_story (first_story_id b) kids with
     | FAttr => fail kids PyAttributeError
-    | FNone => raise_merge m kids
+    | FNone => raise_merge mex kids
     | FFound i =>
       match ro_stories_err o rc with
       | Some e => fail kids e
-      | None => insert_dups m (known_story_ids kids) i (carried t_story b) kids
+      | None => s_dups i (carried t_story b) kids
       end
     end
   | StoryMove =>
     match story_move_source b with
-    | None => raise_merge m kids
-    | Some src => gen_move t_story t_storyID m (story_move_target b) [src] kids
+    | None => raise_merge mex kids
+    | Some src => gen_move skey str_eqb mex (story_move_target b) [src] kids
     end
   | StoryReplace =>
     match find_story (first_story_id b) kids with
     | FAttr => fail kids PyAttributeError
-    | FNone => raise_merge m kids
+    | FNone => raise_merge mex kids
     | FFound i =>
       match carried t_story b with
-      | [] => raise_merge m kids
+      | [] => raise_merge mex kids
       | new => ok (replace_with i new kids)
       end
     end
   | ItemDelete =>
-    with_story (first_story_id b) kids (raise_merge m kids)
-      (delete_loop t_item t_itemID ItemNotFound m (id_tags t_itemID b))
+    with_story (first_story_id b) kids missing (i_delete (id_tags t_itemID b))
   | ItemInsert =>
-    with_story (first_story_id b) kids (raise_merge m kids)
-      (gen_item_insert m (first_item_id b) (carried t_item b))
+    with_story (first_story_id b) kids missing (i_insert (first_item_id b) (carried t_item b))
   | ItemMoveMultiple =>
     match first_story_id b with
-    | None => raise_merge m kids
+    | None => raise_merge mex kids
     | sid =>
-      with_story sid kids (raise_merge m kids)
+      with_story sid kids missing
         (fun ik =>
            match imm_target b with
            | None => fail ik PyIndexError
-           | Some tgt => gen_move t_item t_itemID m tgt (imm_sources b) ik
+           | Some tgt => i_move tgt (imm_sources b) ik
            end)
     end
   | ItemReplace =>
-    with_story (first_story_id b) kids (raise_merge m kids)
-      (gen_item_replace m (first_item_id b) (carried t_item b))
+    with_story (first_story_id b) kids missing (i_replace (first_item_id b) (carried t_item b))
   | MetaDataReplace => ok (md_loop (kids_of b) kids)
   | ReadyToAir => ok kids
-  | EAStoryReplace =>
-    match find_story (ea_target_id t_storyID b) kids with
-    | FAttr => fail kids PyAttributeError
-    | FNone => raise_merge m kids
-    | FFound i => ok (replace_with i (ea_carried t_story b) kids)
-    end
+  | EAStoryReplace => gen_replace skey str_eqb mex (ea_target_id t_storyID b) (ea_carried t_story b) kids
   | EAItemReplace =>
-    with_story (ea_target_id t_storyID b) kids (raise_merge m kids)
-      (gen_item_replace m (ea_target_id t_itemID b) (ea_carried t_item b))
-  | EAStoryDelete =>
-    delete_loop t_story t_storyID StoryNotFound m (ea_source_ids t_storyID b) kids
+    with_story (ea_target_id t_storyID b) kids missing
+      (i_replace (ea_target_id t_itemID b) (ea_carried t_item b))
+  | EAStoryDelete => s_delete (ea_source_ids t_storyID b) kids
   | EAItemDelete =>
-    with_story (ea_target_id t_storyID b) kids (emit m StoryNotFound kids)
-      (delete_loop t_item t_itemID ItemNotFound m (ea_source_ids t_itemID b))
+    with_story (ea_target_id t_storyID b) kids (emit mex StoryNotFound kids)
+      (i_delete (ea_source_ids t_itemID b))
   | EAStoryInsert =>
-    match (match ea_target_id t_storyID b with
-           | None => FFound (length kids)
-           | sid => find_story sid kids
-           end) with
-    | FAttr => fail kids PyAttributeError
-    | FNone => raise_merge m kids
-    | FFound i =>
+    match locate_target skey str_eqb (ea_target_id t_storyID b) kids with
+    | TAttr => fail kids PyAttributeError
+    | TMerge => raise_merge mex kids
+    | t =>
       match ro_stories_err o rc with
       | Some e => fail kids e
-      | None => insert_dups m (known_story_ids kids) i (ea_carried t_story b) kids
+      | None =>
+        s_dups (match t with TAt i => i | _ => length kids end) (ea_carried t_story b) kids
       end
     end
   | EAItemInsert =>
-    with_story (ea_target_id t_storyID b) kids (raise_merge m kids)
-      (gen_item_insert m (ea_target_id t_itemID b) (ea_carried t_item b))
-  | EAStorySwap => gen_swap t_story t_storyID m (ea_first_source_ids t_storyID b) kids
+    with_story (ea_target_id t_storyID b) kids missing
+      (i_insert (ea_target_id t_itemID b) (ea_carried t_item b))
+  | EAStorySwap => gen_swap skey str_eqb mex (ea_first_source_ids t_storyID b) kids
   | EAItemSwap =>
-    with_story (ea_target_id t_storyID b) kids (raise_merge m kids)
-      (gen_swap t_item t_itemID m (ea_first_source_ids t_itemID b))
+    with_story (ea_target_id t_storyID b) kids missing
+      (gen_swap ikey str_eqb mex (ea_first_source_ids t_itemID b))
   | EAStoryMove =>
-    gen_move t_story t_storyID m (ea_target_id t_storyID b) (ea_source_ids t_storyID b) kids
+    gen_move skey str_eqb mex (ea_target_id t_storyID b) (ea_source_ids t_storyID b) kids
   | EAItemMove =>
-    with_story (ea_target_id t_storyID b) kids (raise_merge m kids)
-      (gen_move t_item t_itemID m (ea_target_id t_itemID b) (ea_first_source_ids t_itemID b))
+    with_story (ea_target_id t_storyID b) kids missing
+      (i_move (ea_target_id t_itemID b) (ea_first_source_ids t_itemID b))
   (* not merges on roCreate's children; handled in [merge] *)
   | RunningOrder | RunningOrderReplace | RunningOrderEnd => ok kids
   end.
@@ -306,7 +175,7 @@ Definition merge (k : mclass) (ro m : xml) : res xml :=
   | None => fail ro PyAttributeError
   | Some b =>
     match k with
-    | RunningOrder => raise_merge m ro
+    | RunningOrder => raise_merge (msg_id_exn m) ro
     | RunningOrderReplace =>
       match find_index t_roCreate (kids_of ro) with
       | None => fail ro PyTypeError
